@@ -10,7 +10,7 @@
    check_history, model function [replay]) and by the harness oracle, not proved. *)
 From Coq Require Import List ZArith NArith Bool.
 Import ListNotations.
-Require Import RV.Model.C03_Ledger RV.Proof.C03_Ledger RV.Proof.C03_NF RV.Proof.C04_Inv RV.Proof.C04_NonNeg.
+Require Import RV.Model.C03_Ledger RV.Proof.C03_Ledger RV.Proof.C03_NF RV.Proof.C04_Inv RV.Proof.C04_NonNeg RV.Proof.C04_Replay.
 Open Scope Z_scope.
 
 Theorem C04_supply_invariant :
@@ -37,6 +37,16 @@ Proof. exact step_total_full. Qed.
 
 Theorem C04_xrd_untracked_preserved : forall s o s' evs, step s o = Ok (s', evs) -> xrd_ok s -> xrd_ok s'.
 Proof. exact step_xrd_ok. Qed.
+
+(* event replay, supply side: replaying the Mint / Burn events of a whole history from genesis (model
+   function [replay], the same function the correspondence evaluates on the engine's event stream)
+   gives for every resource — tracking or not, XRD included — exactly the sum of all its vaults at
+   the final transaction boundary.  (The per-vault balance side of the replay is validated by
+   correspondence and the harness oracle only.) *)
+Theorem C04_event_replay_supply : forall txs s' evs,
+  Forall (Forall op_ok) txs -> run_history_ev genesis txs = Some (s', evs) -> at_rest s' = true ->
+  forall r, zget r (rp_supply (replay rp_empty evs)) = vault_sum r s'.
+Proof. exact genesis_event_replay_supply. Qed.
 
 (* no fungible vault balance, bucket amount or locked fee is ever negative: inductive invariant NN *)
 Theorem C04_balances_nonneg :
@@ -73,3 +83,4 @@ Print Assumptions C04_supply_invariant.
 Print Assumptions C04_history_supply_invariant.
 Print Assumptions C04_step_total.
 Print Assumptions C04_balances_nonneg.
+Print Assumptions C04_event_replay_supply.
